@@ -15,5 +15,7 @@ m["confirmed_by_me"] = open(conf).read()[-1500:] if os.path.exists(conf) else "n
 m["what_i_ran"] = f"tools/confirm_mut.sh {w} (suite with patch / demo with patch / demo without patch); tools/trymut.sh mutation/patch.diff <checks>"
 m["caught_by"] = [] if caught == "none" else caught.split(",")
 m["note"] = note
+import subprocess
+m["base"] = subprocess.run(["git", "-C", w, "rev-parse", "--short", "HEAD"], capture_output=True, text=True).stdout.strip() or None
 json.dump(m, open(os.path.join(d, "meta.json"), "w"), indent=1)
 print("kept", d)
